@@ -271,6 +271,14 @@ class Layer(cat.Box):
         yield self._box
         yield self._right
 
+    def __eq__(self, other):
+        if isinstance(other, Layer):
+            return tuple(self) == tuple(other)
+        return super().__eq__(other)
+
+    def __hash__(self):
+        return hash(repr(self))
+
     def __repr__(self):
         return "Layer({}, {}, {})".format(
             *map(repr, (self._left, self._box, self._right)))
